@@ -163,6 +163,16 @@ STD_ITEMS = [
     ("fn w1(x) = y + 1\n  where y = 2 x", [], ["w1"], False), ("w1(2)", ["w1"], ["ans:s"], False),
     ("fn w2(x) = a * b\n  where a = x\n  and b = 30 cm", [SI], ["w2"], False), ("w2(2 m)", ["w2"], ["ans:q"], False),
     ("let g1 = f1", ["f1:n"], ["g1"], False), ("g1(2)", ["g1"], ["ans:s"], False),
+    # functions used AS VALUES (higher-order library functions, let-bound function values); their names are
+    # redefined later in the session (see FUNCTION_VARIANTS / add_redefinitions)
+    ("fn inc(x: Scalar) -> Scalar = x + 1", [SCA], ["inc:n"], False), ("fn inc(x: Scalar) -> Scalar = x + 100", [SCA], ["inc:n"], False),
+    ("map(inc, [1, 2, 3])", ["inc:n", LST], ["ans:list"], False), ("let m1 = map(inc, [1, 2, 3])", ["inc:n", LST], ["m1:list"], False),
+    ("print(m1)", ["m1:list"], [], False), ("let h1 = inc", ["inc:n"], ["h1"], False), ("h1(5)", ["h1"], ["ans:s"], False),
+    ("fn isbig(x) = x > 1", [], ["isbig"], False), ("fn isbig(x) = x > 100", [], ["isbig"], False),
+    ("filter(isbig, [1, 2, 300])", ["isbig", LST], ["ans:list"], False), ("print(filter(isbig, [1, 2, 300]))", ["isbig", LST], [], False),
+    ("fn addf(a, b) = a + b", [], ["addf"], False), ("fn addf(a, b) = a + 2 b", [], ["addf"], False),
+    ("foldl(addf, 0, [1, 2, 3])", ["addf", LST], ["ans:s"], False), ("let s2 = foldl(addf, 0, [1, 2, 3])", ["addf", LST], ["s2:s"], False),
+    ("s2 + 1", ["s2:s"], ["ans:s"], False), ("print(map(f1, [1, 2]))", ["f1:n", LST], [], False),
     # dimensions and units defined in the session, used through ans
     ("dimension Dq", [], ["Dq"], True), ("unit uq: Dq", ["Dq"], ["uq"], True), ("unit ur = 3 uq", ["uq"], ["ur"], True),
     ("let v3 = 5 uq", ["uq"], ["v3:q"], False), ("v3 -> ur", ["v3:q", "ur"], ["ans:q"], False),
@@ -222,6 +232,36 @@ STD_ITEMS = [
     ("speed_of_light", ["mod:physics::constants"], ["ans:q"], False), ("2 hartree", ["mod:units::hartree"], ["ans:q"], False),
     ("3 hours -> minutes", ["mod:units::time"], ["ans:q"], False), ("circle_area(1 m)", ["mod:math::geometry", SI], ["ans:q"], False),
 ]
+
+
+# definitions of the functions that sessions use as values; a session that has used one as a value gets a LATER
+# redefinition of the same name (the earlier use must keep meaning the earlier definition, in every variant)
+FUNCTION_VARIANTS = {
+    "f1": ["fn f1(x) = 2 x", "fn f1(x) = 3 x", "fn f1(x) = x + 7"],
+    "inc": ["fn inc(x: Scalar) -> Scalar = x + 1", "fn inc(x: Scalar) -> Scalar = x + 100"],
+    "isbig": ["fn isbig(x) = x > 1", "fn isbig(x) = x > 100"],
+    "addf": ["fn addf(a, b) = a + b", "fn addf(a, b) = a + 2 b"],
+}
+
+
+def add_redefinitions(rng, lines, p=0.6):
+    """for every function of FUNCTION_VARIANTS that some line uses as a VALUE (argument of map/filter/foldl, or
+    bound to a variable), append — with probability p — a redefinition that differs from its latest definition,
+    somewhere after the last such use"""
+    out = list(lines)
+    for name, variants in FUNCTION_VARIANTS.items():
+        uses = [i for i, l in enumerate(out)
+                if re.search(r"(map|filter|foldl)\(%s\b|=\s*%s\s*$" % (name, name), l) and not l.startswith("fn ")]
+        if not uses or rng.random() > p:
+            continue
+        defs = [l for l in out if l.startswith("fn %s(" % name)]
+        other = [v for v in variants if not defs or v != defs[-1]]
+        if any(("F:%s" % name) == "x" for _ in ()):
+            continue
+        pos = rng.randrange(uses[-1] + 1, len(out) + 1)
+        # only if the name keeps a numeric/compatible type: variants are type-compatible by construction
+        out.insert(pos, rng.choice(other))
+    return out
 
 
 def item_usable(state, it):
